@@ -214,6 +214,213 @@ theorem TrsoAux.sh_mul (σ₀ : Val) {x y : Expr} (hx : Shape card leaf σ₀ x)
   · rw [TrsoAux.sh_mul_eq hx.noOne hy.noOne cx cy fx fy, e1]
   · simp only [Clean]; rw [cleanList_iff]; intro g hg; exact hc g (by simpa using hg)
 
+/-! ### `/` on canonical parts -/
+
+theorem TrsoAux.sh_truediv (σ₀ : Val) {n' d' rv : Expr} (hn : Shape card leaf σ₀ n') (hd : Shape card leaf σ₀ d')
+    (cn : Clean n') (cd : Clean d') (fn : TrsoAux.sh_FracFlat n') (fd : TrsoAux.sh_FracFlat d')
+    (h : truediv n' d' = .ok rv) :
+    ∃ a b, rv = .frac a b ∧ Shape card leaf σ₀ a ∧ Shape card leaf σ₀ b ∧ isFrac a = false ∧ isFrac b = false := by
+  unfold truediv at h
+  have base : ∀ {a : Expr}, Shape card leaf σ₀ a → Clean a → isFrac a = false →
+      (match d' with
+        | .one => Except.ok a
+        | .frac n₂ d₂ => do mkFrac (← mul a d₂) n₂
+        | _ => mkFrac a d') = Except.ok rv →
+      ∃ a b, rv = .frac a b ∧ Shape card leaf σ₀ a ∧ Shape card leaf σ₀ b ∧ isFrac a = false ∧ isFrac b = false := by
+    intro a ha ca fa h
+    cases d' with
+    | one => exact hd.noOne.elim
+    | zero => exact cd.elim
+    | q _ _ => exact cd.elim
+    | frac n₂ d₂ =>
+      obtain ⟨s1, s2, _⟩ := (TrsoAux.sh_frac_iff σ₀ n₂ d₂).1 hd
+      obtain ⟨gs, hm, sg, cg⟩ := TrsoAux.sh_mul σ₀ ha s2 ca cd.2 fa fd.2
+      simp only [hm, bind, Except.bind, mkFrac, clean_not_zero cd.1] at h
+      cases h
+      exact ⟨_, _, rfl, sg, s1, rfl, fd.1⟩
+    | prob _ _ _ => simp only [mkFrac, isZero] at h; cases h; exact ⟨_, _, rfl, ha, hd, fa, rfl⟩
+    | prod _ => simp only [mkFrac, isZero] at h; cases h; exact ⟨_, _, rfl, ha, hd, fa, rfl⟩
+    | sum _ _ => simp only [mkFrac, isZero] at h; cases h; exact ⟨_, _, rfl, ha, hd, fa, rfl⟩
+  cases n' with
+  | zero => exact cn.elim
+  | q _ _ => exact cn.elim
+  | one => exact hn.noOne.elim
+  | prob _ _ _ => exact base hn cn rfl h
+  | prod _ => exact base hn cn rfl h
+  | sum _ _ => exact base hn cn rfl h
+  | frac a b =>
+    obtain ⟨sa, sb, _⟩ := (TrsoAux.sh_frac_iff σ₀ a b).1 hn
+    have fr : ∀ {y : Expr}, Shape card leaf σ₀ y → Clean y → isFrac y = false →
+        (do mkFrac a (← mul b y)) = Except.ok rv →
+        ∃ a b, rv = .frac a b ∧ Shape card leaf σ₀ a ∧ Shape card leaf σ₀ b ∧ isFrac a = false ∧ isFrac b = false := by
+      intro y hy cy fy h
+      obtain ⟨gs, hm, sg, cg⟩ := TrsoAux.sh_mul σ₀ sb hy cn.2 cy fn.2 fy
+      simp only [hm, bind, Except.bind, mkFrac, isZero] at h
+      cases h
+      exact ⟨_, _, rfl, sa, sg, fn.1, rfl⟩
+    cases d' with
+    | one => exact hd.noOne.elim
+    | zero => exact cd.elim
+    | q _ _ => exact cd.elim
+    | frac n₂ d₂ =>
+      obtain ⟨s1, s2, _⟩ := (TrsoAux.sh_frac_iff σ₀ n₂ d₂).1 hd
+      obtain ⟨g1, hm1, sg1, cg1⟩ := TrsoAux.sh_mul σ₀ sa s2 cn.1 cd.2 fn.1 fd.2
+      obtain ⟨g2, hm2, sg2, cg2⟩ := TrsoAux.sh_mul σ₀ sb s1 cn.2 cd.1 fn.2 fd.1
+      simp only [hm1, hm2, bind, Except.bind, mkFrac, isZero] at h
+      cases h
+      exact ⟨_, _, rfl, sg1, sg2, rfl, rfl⟩
+    | prob _ _ _ => exact fr hd cd rfl h
+    | prod _ => exact fr hd cd rfl h
+    | sum _ _ => exact fr hd cd rfl h
+
+/-- the fraction case once the parts are canonical: the re-check after the division keeps the fraction -/
+theorem TrsoAux.sh_frac_out (S : LeafSem card leaf) (σ₀ : Val) {n d n' d' rv : Expr} (gn : Good S n) (gd : Good S d)
+    (ndn : SumND n) (ndd : SumND d) (hn' : canon n = .ok n') (hd' : canon d = .ok d')
+    (on : TrsoAux.sh_Out card leaf σ₀ n n') (od : TrsoAux.sh_Out card leaf σ₀ d d')
+    (hne : denL card leaf n σ₀ ≠ denL card leaf d σ₀) (h : truediv n' d' = .ok rv) :
+    TrsoAux.sh_Out card leaf σ₀ (.frac n d) (postFrac rv) := by
+  have gn' : Good S n' := good_canonicalize S gn hn'
+  have gd' : Good S d' := good_canonicalize S gd hd'
+  have grv : Good S rv := good_truediv S gn' gd' h
+  have hval : denL card leaf rv σ₀ = denL card leaf n σ₀ / denL card leaf d σ₀ := by
+    rw [denL_truediv h, denL_canon S gn ndn hn', denL_canon S gd ndd hd']
+  obtain ⟨a, b, rfl, sa, sb, fa, fb⟩ := TrsoAux.sh_truediv σ₀ on.shape od.shape gn'.1 gd'.1 on.flat od.flat h
+  have pb : 0 < denL card leaf b σ₀ := good_pos S (e := b) ⟨grv.1.2, grv.2.2⟩ σ₀
+  have pd : 0 < denL card leaf d σ₀ := good_pos S gd σ₀
+  have hab : denL card leaf a σ₀ ≠ denL card leaf b σ₀ := by
+    intro e
+    rw [TrsoAux.denL_frac, e, div_self (ne_of_gt pb)] at hval
+    exact hne ((div_eq_one_iff_eq (ne_of_gt pd)).1 hval.symm)
+  have hpf : postFrac (.frac a b) = .frac a b := by
+    simp only [postFrac, TrsoAux.sh_isOne sb.noOne]
+    cases hq : exprEq a b with
+    | true => exact absurd (congrArg (denL card leaf · σ₀) (exprEq_sound a b hq)) hab
+    | false => simp
+  rw [hpf]
+  refine ⟨(TrsoAux.sh_frac_iff σ₀ a b).2 ⟨sa, sb, hab⟩, ⟨fa, fb⟩, ?_⟩
+  intro c' s' hc
+  simp [chain] at hc
+
+/-! ### `Sum.simplify` -/
+
+theorem TrsoAux.sh_sumSimplify_out (σ₀ : Val) {t t' : Expr} {r rs : List Var}
+    (hrs : ∀ n, n ∈ rs.map (·.name) ↔ n ∈ r.map (·.name)) (ot : TrsoAux.sh_Out card leaf σ₀ t t')
+    (hs : Shape card leaf σ₀ (.sum t r)) : TrsoAux.sh_Out card leaf σ₀ (.sum t r) (sumSimplify t' rs) := by
+  obtain ⟨st, hck⟩ := (TrsoAux.sh_sum_iff σ₀ t r).1 hs
+  -- the un-summed child that the input keeps
+  have key : ∀ c' s', chain t' = some (c', s') → ∃ c₀ s₀, chain t = some (c₀, s₀) ∧
+      (∀ n, (n ∈ c'.map (·.name) ∧ n ∉ s') ↔ (n ∈ c₀.map (·.name) ∧ n ∉ s₀)) ∧
+      ∃ n ∈ c'.map (·.name), n ∉ s' ∧ n ∉ rs.map (·.name) := by
+    intro c' s' hc
+    obtain ⟨c₀, s₀, h1, h2⟩ := ot.link c' s' hc
+    obtain ⟨n, hn, hns⟩ := hck c₀ (s₀ ++ r.map (·.name)) (by simp [chain, h1])
+    have hns' : n ∉ s₀ ∧ n ∉ r.map (·.name) := by
+      rw [List.mem_append, not_or] at hns; exact hns
+    have := (h2 n).2 ⟨hn, hns'.1⟩
+    exact ⟨c₀, s₀, h1, h2, n, this.1, this.2, by rw [hrs]; exact hns'.2⟩
+  unfold sumSimplify
+  split
+  · rename_i pop c
+    obtain ⟨c₀, s₀, h1, h2, n, hn, _, hnr⟩ := key c [] (by simp [chain])
+    have hkeys : ∀ m, m ∈ (childDict c).map (·.1) ↔ m ∈ c.map (·.name) := by
+      intro m; rw [TrsoAux.mem_childDict_keys]; simp
+    have hin : chain (.sum t r) = some (c₀, s₀ ++ r.map (·.name)) := by simp [chain, h1]
+    have h2' : ∀ m, m ∈ c.map (·.name) ↔ (m ∈ c₀.map (·.name) ∧ m ∉ s₀) := by
+      intro m; have := h2 m; simpa using this
+    simp only []
+    split
+    · rename_i hse
+      simp only [seteq', Bool.and_eq_true, TrsoAux.subset'_iff] at hse
+      exact absurd (hse.2 n ((hkeys n).2 hn)) hnr
+    · split
+      · rename_i _ hsk
+        rw [TrsoAux.subset'_iff] at hsk
+        exact absurd (hsk n ((hkeys n).2 hn)) hnr
+      · split
+        · have hnames := fun m => TrsoAux.mem_kept_names c (fun p => decide (p.1 ∉ rs.map (·.name)))
+            (fun n => n ∉ rs.map (·.name)) (by intro p; simp) m
+          refine ⟨TrsoAux.sh_leaf σ₀ _ _ _, trivial, ?_⟩
+          intro c' s' hc
+          simp only [chain, Option.some.injEq, Prod.mk.injEq] at hc
+          obtain ⟨rfl, rfl⟩ := hc
+          refine ⟨c₀, _, hin, ?_⟩
+          intro m
+          have := hnames m
+          simp only [vnames] at this
+          rw [this, hkeys m, h2' m, hrs m, List.mem_append, not_or]
+          simp only [List.not_mem_nil, not_false_eq_true, and_true]
+          tauto
+        · have hnames := fun m => TrsoAux.mem_kept_names c
+            (fun p => decide (p.1 ∉ (rs.map (·.name)).filter (fun x => decide (x ∈ (childDict c).map (·.1)))))
+            (fun n => n ∉ (rs.map (·.name)).filter (fun x => decide (x ∈ (childDict c).map (·.1))))
+            (by intro p; simp) m
+          have hnames' : ∀ m, m ∈ (sortVars (((childDict c).filter (fun p => decide (p.1 ∉ (rs.map (·.name)).filter
+              (fun x => decide (x ∈ (childDict c).map (·.1)))))).map (·.2))).map (·.name) ↔
+              m ∈ c.map (·.name) ∧ m ∉ rs.map (·.name) := by
+            intro m
+            have := hnames m
+            simp only [vnames] at this
+            rw [this, hkeys m]
+            simp only [List.mem_filter, decide_eq_true_eq, hkeys m]
+            tauto
+          have hextra : ∀ m, m ∈ (rs.filter (fun r => decide (r.name ∉ (rs.map (·.name)).filter
+              (fun x => decide (x ∈ (childDict c).map (·.1)))))).map (·.name) → m ∈ rs.map (·.name) := by
+            intro m hm
+            obtain ⟨v, hv, rfl⟩ := List.mem_map.1 hm
+            exact List.mem_map.2 ⟨v, (List.mem_filter.1 hv).1, rfl⟩
+          refine ⟨(TrsoAux.sh_sum_iff σ₀ _ _).2 ⟨TrsoAux.sh_leaf σ₀ _ _ _, ?_⟩, trivial, ?_⟩
+          · intro c' s' hc
+            simp only [chain, Option.map_some, Option.some.injEq, Prod.mk.injEq, List.nil_append] at hc
+            obtain ⟨rfl, rfl⟩ := hc
+            exact ⟨n, (hnames' n).2 ⟨hn, hnr⟩, fun hm => hnr (hextra n hm)⟩
+          · intro c' s' hc
+            simp only [chain, Option.map_some, Option.some.injEq, Prod.mk.injEq, List.nil_append] at hc
+            obtain ⟨rfl, rfl⟩ := hc
+            refine ⟨c₀, _, hin, ?_⟩
+            intro m
+            rw [hnames' m, h2' m, hrs m, List.mem_append, not_or]
+            constructor
+            · rintro ⟨⟨⟨a1, a2⟩, a3⟩, _⟩; exact ⟨a1, a2, a3⟩
+            · rintro ⟨a1, a2, a3⟩
+              exact ⟨⟨⟨a1, a2⟩, a3⟩, fun hm => a3 ((hrs m).1 (hextra m hm))⟩
+  · refine ⟨(TrsoAux.sh_sum_iff σ₀ _ _).2 ⟨ot.shape, ?_⟩, trivial, ?_⟩
+    · intro c' s' hc
+      simp only [chain, Option.map_eq_some_iff] at hc
+      obtain ⟨p, hp, hpe⟩ := hc
+      simp only [Prod.mk.injEq] at hpe
+      obtain ⟨rfl, rfl⟩ := hpe
+      obtain ⟨_, _, _, _, m, hm, hm1, hm2⟩ := key p.1 p.2 hp
+      exact ⟨m, hm, by rw [List.mem_append, not_or]; exact ⟨hm1, hm2⟩⟩
+    · intro c' s' hc
+      simp only [chain, Option.map_eq_some_iff] at hc
+      obtain ⟨p, hp, hpe⟩ := hc
+      simp only [Prod.mk.injEq] at hpe
+      obtain ⟨rfl, rfl⟩ := hpe
+      obtain ⟨c₀, s₀, h1, h2, _⟩ := key p.1 p.2 hp
+      refine ⟨c₀, s₀ ++ r.map (·.name), by simp [chain, h1], ?_⟩
+      intro m
+      have := h2 m
+      rw [List.mem_append, not_or, List.mem_append, not_or, hrs m]
+      tauto
+
+theorem TrsoAux.sh_sumSafe_out (σ₀ : Val) {t t' : Expr} {r : List Var} (ct' : Clean t')
+    (ot : TrsoAux.sh_Out card leaf σ₀ t t') (hs : Shape card leaf σ₀ (.sum t r)) :
+    TrsoAux.sh_Out card leaf σ₀ (.sum t r) (sumSafe t' r true) := by
+  unfold sumSafe
+  simp only []
+  split
+  · rename_i hemp
+    have h0 : sortVars r = [] := by simpa using hemp
+    have hr : r = [] := by
+      by_contra hne; exact sortVars_nonempty hne h0
+    subst hr
+    refine ⟨ot.shape, ot.flat, ?_⟩
+    intro c' s' hc
+    obtain ⟨c₀, s₀, h1, h2⟩ := ot.link c' s' hc
+    exact ⟨c₀, s₀ ++ [], by simp [chain, h1], by simpa using h2⟩
+  · simp only [clean_not_zero ct', Bool.false_eq_true, if_false, if_true]
+    exact TrsoAux.sh_sumSimplify_out σ₀ (by intro n; simp) ot hs
+
 /-- **`canonicalize` preserves the shape invariant** -/
 theorem shape_canon (S : LeafSem card leaf) (σ₀ : Val) {e e' : Expr} (hg : Good S e) (hnd : SumND e)
     (hs : Shape card leaf σ₀ e) (h : canon e = .ok e') : Shape card leaf σ₀ e' := by
